@@ -151,8 +151,8 @@ def check_writer(chk, fn, label, expect_len=True):
             off = None
             if is_name(dst, b):
                 off = Lin(0)
-            elif dst.k == 'UnaryOperator' and dst.o == '&' and strip_casts(dst.c[0]).k == 'ArraySubscriptExpr' and is_name(strip_casts(dst.c[0]).c[0], b):
-                off = lin(fn, strip_casts(dst.c[0]).c[1])
+            elif elem_addr(dst) is not None and is_name(elem_addr(dst)[0], b):
+                off = lin(fn, elem_addr(dst)[1])
             if off is not None:
                 a0, a1 = lin(fn, node.args()[0]), lin(fn, node.args()[1])
                 n = (a1 - a0) if a0 is not None and a1 is not None else None
